@@ -59,6 +59,10 @@ type tgen struct {
 	ids    map[uintptr]int
 	nextID int
 	maxD   int
+	// explicit: name every field of the value being rendered, zero ones too (history ops: the new
+	// value of a by-value struct field). noTime: generate zero times only (the way back loses times).
+	explicit bool
+	noTime   bool
 }
 
 func newTgen(g *Gen, maxD int) *tgen {
@@ -107,7 +111,7 @@ func (t *tgen) genPtr(pt reflect.Type, depth int) reflect.Value {
 
 func (t *tgen) genValue(ty reflect.Type, depth int) reflect.Value {
 	if ty == timeType {
-		if t.rint(2) == 0 {
+		if t.noTime || t.rint(2) == 0 {
 			return reflect.ValueOf(time.Time{})
 		}
 		return reflect.ValueOf(time.Unix(int64(t.rint(2000000000)), 0).UTC())
@@ -156,7 +160,11 @@ func (t *tgen) genValue(ty reflect.Type, depth int) reflect.Value {
 			return v
 		}
 		if ty.NumMethod() == 0 {
-			switch t.rint(5) {
+			k := t.rint(5)
+			if k == 1 && t.noTime {
+				k = 0
+			}
+			switch k {
 			case 0:
 				v.Set(reflect.ValueOf(t.rint(2) == 0))
 			case 1:
@@ -449,7 +457,7 @@ func (t *tgen) fieldsOf(v reflect.Value, st reflect.Type, prefix []int, paths ma
 			}
 			continue
 		}
-		if fv.IsZero() && t.rint(100) < 70 {
+		if fv.IsZero() && !t.explicit && t.rint(100) < 70 {
 			continue
 		}
 		if p, ok := resolveKey(paths, key); !ok || !samePath(p, path) {
@@ -691,6 +699,10 @@ func togoGen(g *Gen) {
 		g.Emit("%s", togoLine("conv", vn, &tnode{tok: "H", tn: "vnode", id: 1, keys: ks, kids: []*tnode{leaf(), atom("R2")}}, "-"))
 		g.Count("fixed shared-record pointer+interface")
 	}
+	// 3b. a struct type with an embedded POINTER: keyed known finding (no record of it can be made)
+	vpe := togoByName["vpe"]
+	g.Emit("%s", togoLine("conv", vpe, &tnode{tok: "H", tn: "vpe", id: 1, keys: []string{"k122"}, kids: []*tnode{atom("i4")}}, "-"))
+	g.Count("fixed embedded-pointer type")
 	// 4. the keyed known finding: a time does not come back
 	w := togoByName["weather"]
 	g.Emit("%s", togoLine("echo", w, &tnode{tok: "H", tn: "weather", id: 1, keys: []string{"k116.105.109.101", "k115.105.122.101"}, kids: []*tnode{atom("t1600000000"), atom("i12")}}, "-"))
